@@ -671,3 +671,11 @@ Proof.
            n colsD colsC HlenD HlenC Hrows Hstates uf_last_point i).
 Qed.
 End LastDecisionOfTheCode.
+
+(* the decision above is what the regenerated get_discrete_policy_calculator computes on the variable_info of the model *)
+From LCM Require Import Proofs.C18_AxesFilterFree.
+Lemma decision_is_the_policy_calculators (dst dch cst cch : list (string * grid)) uf colsD colsC :
+  NoDup (map fst (dst ++ dch ++ cst ++ cch)) ->
+  get_discrete_policy_calculator (vi_of dst dch cst cch) (ccv_arr dst dch cst cch uf colsD colsC) None
+  = decision_g dst dch cst cch uf colsD colsC.
+Proof. intros H. rewrite (policy_calculator_of_filter_free dst dch cst cch H). reflexivity. Qed.
